@@ -94,7 +94,7 @@ for cls in (PurePath, PurePosixPath, PureWindowsPath, Path, PosixPath, WindowsPa
 def _compile(pattern: str) -> re.Pattern:
     try:
         return re.compile(pattern)
-    except re.error as err:
+    except (re.error, OverflowError) as err:  # OverflowError: huge repetition count
         raise ValidationError(str(err))
 
 
